@@ -27,8 +27,8 @@ def random_frame(rng, max_len=300):
     data = rbytes(rng, loglen(rng, max_len))
     if t == 'SETUP':
         f.update(keepalive_ms=rng.randrange(0, 2 ** 31), lifetime_ms=rng.randrange(0, 2 ** 31), lease=rng.random() < 0.3,
-                 resume=rng.random() < 0.3, metadata_mime=rbytes(rng, rng.randrange(0, 40)),
-                 data_mime=rbytes(rng, rng.randrange(0, 40)), metadata=md, data=data)
+                 resume=rng.random() < 0.3, metadata_mime=rbytes(rng, rng.choice([0, 1, 39, 126, 127, rng.randrange(0, 128)])),
+                 data_mime=rbytes(rng, rng.choice([0, 1, 39, 126, 127, rng.randrange(0, 128)])), metadata=md, data=data)
         if f['resume']:
             f['token'] = rbytes(rng, rng.randrange(0, 40))
     elif t == 'LEASE':
